@@ -424,12 +424,37 @@ func c05Kinds(mode string, g int) {
 	}
 }
 
+// T8: the catching focus node is a String / Bool / Float64 / Time field next to a required Int
+func c05OtherKinds(sh *shape) {
+	fn := sh.top.Kids[0].(catchNode)
+	key := sh.top.Keys[0]
+	fn.setCatch(true)
+	o1 := runReal(sh)
+	fn.setCatch(false)
+	o2 := runReal(sh)
+	fn.setCatch(true)
+	v.Assert(len(o1.m[key]) == 0, "C05:catching-node-reported-an-issue")
+	v.Assert(sameMapsExcept(o1.m, o2.m, []string{key}), "C05:catch-changed-issues-of-other-nodes")
+	v.Assert(o1.dest.J == o2.dest.J, "C05:catch-changed-other-values")
+	if len(o2.m[key]) > 0 {
+		v.Cover("caught")
+		v.Assert(fn.holdsCatch(destField(&o1.dest, key)), "C05:failure-did-not-yield-catch-value")
+	} else {
+		v.Cover("not-caught")
+		v.Assert(sameLeaf(destField(&o1.dest, key), destField(&o2.dest, key)), "C05:catch-value-used-without-failure")
+	}
+}
+
 func C05_Run(job string) {
 	if a, b, _, _ := split3(job); a == "multi-issue" || a == "ptr-elem" || a == "kinds" || a == "redirected" || a == "negated" {
 		c05Extra(a, b)
 		return
 	}
 	sh := buildShape(job)
+	if _, tm, _, _ := split3(job); tm == "T8" {
+		c05OtherKinds(sh)
+		return
+	}
 	if sh.top != nil {
 		// struct-level tests that read the catching field legitimately see the catch value: not part of
 		// the twin comparison (they stay in C01/C02/C09)
@@ -559,7 +584,7 @@ func C09_Jobs() []string {
 	var out []string
 	for _, j := range shapeJobs() {
 		_, t, _, d := split3(j)
-		if t == "T2" || t == "T4" || t == "T5" || t == "T6" || t == "T7" {
+		if t == "T2" || t == "T4" || t == "T5" || t == "T6" || t == "T7" || t == "T8" {
 			// quick: plain, catch, required+catch, all three; thorough: every decoration
 			if v.Tier() == 0 && d != "d0" && d != "d4" && d != "d5" && d != "d7" {
 				continue
